@@ -7,6 +7,7 @@ import (
 	"go/ast"
 	"go/token"
 	"go/types"
+	"sort"
 	"strings"
 
 	"golang.org/x/tools/go/packages"
@@ -18,7 +19,7 @@ var fsCreators = map[string]int{"os.OpenFile": 0, "os.Create": 0, "os.WriteFile"
 
 func checkC19(r *Run) propMeta {
 	meta := propMeta{Level: "other",
-		Explanation: "Decides the ordering and pairing clauses that make an interrupted dump resumable or refused: (R1) publish-by-rename — every file created on a path reachable from Dump is created under a name ending in \".tmp\" and reaches its final name only as the destination of os.Rename; (R2) in each publishing function the rename is preceded by error-gated Close of compressor and file, and every failing branch after the temp file exists removes it; (R3) record-after-publish with rollback — a fragment is appended to the checkpoint only after closeFragmentWriter published it, a failed checkpoint write removes the published fragment and restores the in-memory checkpoint; (R4) manifest last — writeManifest is called only in Dump, after the loop over all targets, and is followed by removeDumpCheckpoint; (R5) resume gate — loadCompatibleDumpCheckpoint returns success only after the manifest-absent check, identity equality, validateDumpCheckpoint, removeKnownDumpCheckpointTemps and validateDumpCheckpointFiles each passed, and Dump resumes only through it; (R6) every DumpOptions field is covered by the checkpoint identity or listed as output-neutral. NOT decided: the outcome at each individual crash point (fault enumeration), database snapshot changes between runs, fsync durability (no sync call exists; stated as an assumption).",
+		Explanation: "Decides the ordering and pairing clauses that make an interrupted dump resumable or refused: (R1) publish-by-rename — every file created on a path reachable from Dump is created under a name ending in \".tmp\" and reaches its final name only as the destination of os.Rename; (R2) in each publishing function the rename is preceded by error-gated Close of compressor and file, and every failing branch after the temp file exists removes it; (R3) record-after-publish with rollback — a fragment is appended to the checkpoint only after closeFragmentWriter published it, a failed checkpoint write removes the published fragment and restores the in-memory checkpoint; in the record visitor the resume cursor is advanced to the written record's ID after the write and before any flush it triggers; (R4) manifest last — writeManifest is called only in Dump, after the loop over all targets, and is followed by removeDumpCheckpoint; (R5) resume gate — loadCompatibleDumpCheckpoint returns success only after the manifest-absent check, identity equality, validateDumpCheckpoint, removeKnownDumpCheckpointTemps and validateDumpCheckpointFiles each passed, and Dump resumes only through it; (R6) every DumpOptions field is covered by the checkpoint identity or listed as output-neutral, and no field of a struct copy is read after the same function overwrote it with a constant (a digest of a blanked option is the same for every option value). NOT decided: the outcome at each individual crash point (fault enumeration), database snapshot changes between runs, fsync durability (no sync call exists; stated as an assumption).",
 		Assumptions: []string{"os.Rename is atomic with respect to process crash", "no fsync is issued: durability across power loss is outside the property as checked"},
 		TrustedBase: []string{"go/types", "this analyser"}}
 	if err := r.Load("./retriever/..."); err != nil {
@@ -88,6 +89,7 @@ func checkC19(r *Run) propMeta {
 			continue
 		}
 		checkFlushClosure(r, p, fd)
+		checkCursorBeforeCommit(r, p, fd)
 	}
 	if dg := decls["dumpGraph"]; dg != nil {
 		checkCommitCallbacks(r, p, dg)
@@ -103,10 +105,11 @@ func checkC19(r *Run) propMeta {
 
 	// ---- R6 identity completeness -------------------------------------------------------------------
 	checkIdentityCompleteness(r, p, decls)
+	checkBlankedFieldReads(r, p, decls)
 
 	r.Floor("C19-R1-publish-by-rename", 3)
 	r.Floor("C19-R2-close-before-rename", 3)
-	r.Floor("C19-R3-record-after-publish", 4)
+	r.Floor("C19-R3-record-after-publish", 6)
 	r.Floor("C19-R5-resume-gate", 5)
 	return meta
 }
@@ -602,4 +605,248 @@ func hasTempConst(m map[string]bool) bool {
 		}
 	}
 	return false
+}
+
+// checkCursorBeforeCommit (R3, cursor clause): the flush closure hands the resume cursor to the commit callback.  The
+// per-record visitor must have advanced that cursor to the record it just wrote before any flush it triggers, and
+// only after the write succeeded: a flush that runs first commits the shard with the previous record's ID, and a
+// resume then reads the shard's last record again (a duplicate) while the final record count still balances.
+func checkCursorBeforeCommit(r *Run, p *packages.Package, fd *ast.FuncDecl) {
+	info := p.TypesInfo
+	name := fd.Name.Name
+	// the flush closure and the variable it hands to the commit callback
+	var flushObj types.Object
+	var cursor *types.Var
+	ast.Inspect(fd.Body, func(n ast.Node) bool {
+		as, ok := n.(*ast.AssignStmt)
+		if !ok || len(as.Lhs) != 1 || len(as.Rhs) != 1 {
+			return true
+		}
+		fl, ok := as.Rhs[0].(*ast.FuncLit)
+		if !ok {
+			return true
+		}
+		if !stmtHasCallShallow(fl.Body, func(c *ast.CallExpr) bool {
+			f := calleeOf(info, c)
+			return f != nil && f.Name() == "closeFragmentWriter"
+		}) {
+			return true
+		}
+		if id, ok := as.Lhs[0].(*ast.Ident); ok {
+			flushObj = info.Defs[id]
+		}
+		ast.Inspect(fl.Body, func(m ast.Node) bool {
+			c, ok := m.(*ast.CallExpr)
+			if !ok {
+				return true
+			}
+			id, ok := c.Fun.(*ast.Ident)
+			if !ok {
+				return true
+			}
+			if v, ok := info.Uses[id].(*types.Var); ok {
+				if _, isSig := v.Type().Underlying().(*types.Signature); isSig && len(c.Args) >= 2 {
+					if aid, ok := ast.Unparen(c.Args[len(c.Args)-1]).(*ast.Ident); ok {
+						if cv, ok := info.Uses[aid].(*types.Var); ok && namedName(cv.Type()) == "ID" {
+							cursor = cv
+						}
+					}
+				}
+			}
+			return true
+		})
+		return true
+	})
+	if flushObj == nil || cursor == nil {
+		r.Undecide("C19-R3: %s: flush closure or the cursor it commits not found", name)
+		return
+	}
+	// the record visitor: the function literal that calls <writer>.Write
+	var visitor *ast.FuncLit
+	ast.Inspect(fd.Body, func(n ast.Node) bool {
+		if fl, ok := n.(*ast.FuncLit); ok && visitor == nil {
+			if stmtHasCallShallow(fl.Body, func(c *ast.CallExpr) bool {
+				sel, ok := c.Fun.(*ast.SelectorExpr)
+				return ok && sel.Sel.Name == "Write" && len(c.Args) == 1
+			}) {
+				visitor = fl
+			}
+		}
+		return true
+	})
+	if visitor == nil {
+		r.Undecide("C19-R3: %s: record visitor (the closure that writes the fragment record) not found", name)
+		return
+	}
+	writePos, setPos := token.NoPos, token.NoPos
+	var flushCalls []token.Pos
+	recordParam := types.Object(nil)
+	if visitor.Type.Params != nil && len(visitor.Type.Params.List) > 0 && len(visitor.Type.Params.List[0].Names) > 0 {
+		recordParam = info.Defs[visitor.Type.Params.List[0].Names[0]]
+	}
+	setFromRecord := false
+	ast.Inspect(visitor.Body, func(n ast.Node) bool {
+		switch x := n.(type) {
+		case *ast.CallExpr:
+			if sel, ok := x.Fun.(*ast.SelectorExpr); ok && sel.Sel.Name == "Write" && len(x.Args) == 1 && writePos == token.NoPos {
+				writePos = x.Pos()
+			}
+			if id, ok := x.Fun.(*ast.Ident); ok && info.Uses[id] == flushObj {
+				flushCalls = append(flushCalls, x.Pos())
+			}
+		case *ast.AssignStmt:
+			for i, l := range x.Lhs {
+				if id, ok := l.(*ast.Ident); ok && info.Uses[id] == cursor && setPos == token.NoPos {
+					setPos = x.Pos()
+					if i < len(x.Rhs) {
+						if sel, ok := ast.Unparen(x.Rhs[i]).(*ast.SelectorExpr); ok && sel.Sel.Name == "ID" {
+							if rid, ok := ast.Unparen(sel.X).(*ast.Ident); ok && info.Uses[rid] == recordParam {
+								setFromRecord = true
+							}
+						}
+					}
+				}
+			}
+		}
+		return true
+	})
+	construct := name + ":cursor"
+	switch {
+	case setPos == token.NoPos || !setFromRecord:
+		r.Fail("C19-R3-record-after-publish", construct, visitor.Pos(), "the record visitor never sets the resume cursor %s to the ID of the record it wrote: every shard is committed with a stale cursor", cursor.Name())
+	case writePos == token.NoPos || setPos < writePos:
+		r.Fail("C19-R3-record-after-publish", construct, setPos, "the resume cursor %s is advanced before the record is written: a failed write leaves the cursor ahead of the data and a resume skips the record", cursor.Name())
+	default:
+		late := token.NoPos
+		for _, fp := range flushCalls {
+			if fp < setPos {
+				late = fp
+			}
+		}
+		if late != token.NoPos {
+			r.Fail("C19-R3-record-after-publish", construct, late, "flush() runs before the resume cursor %s is advanced to the record just written: the shard is committed with the previous record's ID, a resume re-reads the shard's last record (duplicate) and, with counts still balancing, publishes a dump that is not equivalent to an uninterrupted one", cursor.Name())
+		} else {
+			r.Pass("C19-R3-record-after-publish", construct, setPos, "write, then advance %s to the record's ID, then flush (%d flush call(s) in the visitor)", cursor.Name(), len(flushCalls))
+		}
+	}
+}
+
+// checkBlankedFieldReads (R6, digest clause): a struct copy whose field was overwritten with a constant holds that
+// constant from then on; a later read of the same field in the same function yields the constant, not the original
+// value.  In the identity computation this turns a digest of an option into a digest of "" — equal for every value of
+// the option — so a resume under a different option value is accepted.
+func checkBlankedFieldReads(r *Run, p *packages.Package, decls map[string]*ast.FuncDecl) {
+	info := p.TypesInfo
+	// the identity computation: newDumpCheckpointIdentity and the package functions it calls
+	closure := map[*ast.FuncDecl]bool{}
+	var visit func(fd *ast.FuncDecl)
+	visit = func(fd *ast.FuncDecl) {
+		if fd == nil || fd.Body == nil || closure[fd] {
+			return
+		}
+		closure[fd] = true
+		ast.Inspect(fd.Body, func(x ast.Node) bool {
+			if call, ok := x.(*ast.CallExpr); ok {
+				if fn := calleeOf(info, call); fn != nil && fn.Pkg() == p.Types {
+					for _, f := range p.Syntax {
+						for _, d := range f.Decls {
+							if cd, ok := d.(*ast.FuncDecl); ok && info.Defs[cd.Name] == fn {
+								visit(cd)
+							}
+						}
+					}
+				}
+			}
+			return true
+		})
+	}
+	visit(decls["newDumpCheckpointIdentity"])
+	var fds []*ast.FuncDecl
+	for fd := range closure {
+		fds = append(fds, fd)
+	}
+	sort.Slice(fds, func(a, b int) bool { return fds[a].Pos() < fds[b].Pos() })
+	readsField := func(n ast.Node, base types.Object, field *types.Var) token.Pos {
+		pos := token.NoPos
+		ast.Inspect(n, func(x ast.Node) bool {
+			if sel, ok := x.(*ast.SelectorExpr); ok && pos == token.NoPos {
+				if s := info.Selections[sel]; s != nil && s.Obj() == field {
+					if b, ok := ast.Unparen(sel.X).(*ast.Ident); ok && info.Uses[b] == base {
+						pos = sel.Pos()
+					}
+				}
+			}
+			return true
+		})
+		return pos
+	}
+	for _, fd := range fds {
+		ast.Inspect(fd.Body, func(x ast.Node) bool {
+			blk, ok := x.(*ast.BlockStmt)
+			if !ok {
+				return true
+			}
+			for i, st := range blk.List {
+				as, ok := st.(*ast.AssignStmt)
+				if !ok || as.Tok != token.ASSIGN || len(as.Lhs) != len(as.Rhs) {
+					continue
+				}
+				for k, l := range as.Lhs {
+					sel, ok := ast.Unparen(l).(*ast.SelectorExpr)
+					if !ok {
+						continue
+					}
+					base, ok := ast.Unparen(sel.X).(*ast.Ident)
+					if !ok {
+						continue
+					}
+					s := info.Selections[sel]
+					bobj := info.Uses[base]
+					if s == nil || s.Kind() != types.FieldVal || info.Types[as.Rhs[k]].Value == nil || bobj == nil {
+						continue
+					}
+					if _, isPtr := bobj.Type().Underlying().(*types.Pointer); isPtr {
+						continue // a write through a pointer is visible elsewhere; not a local copy
+					}
+					field := s.Obj().(*types.Var)
+					construct := funcDeclName(fd) + ":" + base.Name + "." + field.Name()
+					stale := token.NoPos
+					for _, later := range blk.List[i+1:] {
+						// a later top-level write to the field or the whole variable revives it
+						if las, ok := later.(*ast.AssignStmt); ok {
+							revives := false
+							for _, ll := range las.Lhs {
+								if id, ok := ast.Unparen(ll).(*ast.Ident); ok && info.Uses[id] == bobj {
+									revives = true
+								}
+								if lsel, ok := ast.Unparen(ll).(*ast.SelectorExpr); ok {
+									if ls := info.Selections[lsel]; ls != nil && ls.Obj() == field {
+										revives = true
+									}
+								}
+							}
+							if revives {
+								for _, rhs := range las.Rhs {
+									if p := readsField(rhs, bobj, field); p != token.NoPos && stale == token.NoPos {
+										stale = p
+									}
+								}
+								break
+							}
+						}
+						if p := readsField(later, bobj, field); p != token.NoPos {
+							stale = p
+							break
+						}
+					}
+					if stale != token.NoPos {
+						r.Fail("C19-R6-identity", construct, stale, "%s.%s is read after it was overwritten with a constant earlier in the same block (%s): the value used here is that constant for every input, so what is derived from it (a digest of the option) no longer distinguishes option values and a resume under a different value is accepted", base.Name, field.Name(), r.Pos(as.Pos()))
+					} else {
+						r.Pass("C19-R6-identity", construct, as.Pos(), "no read of the blanked field follows in this block")
+					}
+				}
+			}
+			return true
+		})
+	}
 }
